@@ -418,6 +418,10 @@ def build(sess):
     )
     check_split(sess)
     check_subdivide(sess)
+    # the flatness predicate the invariant leans on is re-verified here against the contract used above (same obligations as C09):
+    # a change inside points_in_tolerance is then a failed obligation of THIS property too, not only a bounded finding
+    from .c09 import check_pit_unbounded
+    check_pit_unbounded(sess)
     r = native('n_c10', 'search', {'seed': sess.seed})
     sess.bounded.append({'function': 'plot_utils.subdivideCubicPath (termination + end-to-end cross-check)', 'bound': r.get('bound'),
                          'evaluations': r.get('tried', 0), 'distinct_nontrivial': r.get('distinct', 0),
